@@ -31,6 +31,7 @@ ASSUMPTIONS = ["develop-mode SOURCE workspaces of a changed checkout variant are
 def plan(tier, seed):
     n = 6 if tier == "quick" else 300
     cases = [{"seed": common.subseed(seed, "c16", i), "mode": ["dev", "build"][i % 2], "edits": 3 if tier == "quick" else 6} for i in range(n)]
+    cases += [{"seed": common.subseed(seed, "c16m", i), "mode": ["dev", "build"][i % 2], "edits": 2 if tier == "quick" else 4, "mixed": True, "_first": i < 2} for i in range(2 if tier == "quick" else 60)]
     cases.append({"seed": seed, "devsrc": True, "_first": True})
     return cases
 
@@ -173,6 +174,15 @@ def run_case(case):
                 # the edit made the project unbuildable (e.g. incompatible variants): undo and go on
                 model = prev_model; hist.append(("undo-invalid",)); continue
             prev_model = copy.deepcopy(model)
+            other = None
+            if case.get("mixed"):
+                # the same project is also used in the other mode (develop <-> release): its directories are current as well
+                other = "build" if mode == "dev" else "dev"
+                ro = e2e.build(W, model, other)
+                if ro.returncode != 0:
+                    other = None
+                else:
+                    counters["states_built_in_both_modes"] = counters.get("states_built_in_both_modes", 0) + 1
             counters["states"] += 1
             vt = vid_table(W, model, mode)
             if "__error__" in vt:
@@ -224,6 +234,9 @@ def run_case(case):
                 flags = ["--develop" if mode == "dev" else "--release"] + (["-s"] if with_src else []) + projgen.define_args(model)
                 before = all_workspaces(W)
                 current = {d for kind in dm for d in dm[kind].values()}
+                if other:
+                    dmo = dir_maps(W, model, other)
+                    current |= {d for kind in dmo for d in dmo[kind].values()}
                 rd = common.bob(["clean", "--dry-run"] + flags, cwd=W, timeout=300)
                 counters["dry_runs"] += 1
                 if rd.returncode != 0:
@@ -254,6 +267,15 @@ def run_case(case):
                     viol.append(violation("build-after-clean-failed", dict(ctx, output=r2.tail(300))))
                 elif ex:
                     viol.append(violation("clean-removed-up-to-date-results", dict(ctx, re_executed=ex[:6], deleted=sorted(deleted)[:6])))
+                if other and not viol:
+                    open(evlog, "w").close()
+                    r3 = e2e.build(W, model, other, evlog=evlog)
+                    ex = [(n, k) for n, k, _ in e2e.read_evlog(evlog) if k in ("build", "package")]
+                    if r3.returncode != 0:
+                        viol.append(violation("build-after-clean-failed", dict(ctx, other_mode=other, output=r3.tail(300))))
+                    elif ex:
+                        viol.append(violation("clean-removed-up-to-date-results", dict(ctx, other_mode=other, re_executed=ex[:6], deleted=sorted(deleted)[:6])))
+                    sigs.add("%s|clean|other-mode-%s" % (mode, other))
                 sigs.add("%s|clean|%s|deleted%d" % (mode, "s" if with_src else "-", min(len(deleted), 3)))
             if viol:
                 break
